@@ -33,9 +33,9 @@ PROP = {
                   "malformed-http locations whose possible target lies inside the patterns are judged by the "
                   "safety direction only (the statement does not say whether they must be accepted).",
     "tests": [
-        ("TestVFC17AddSetURL", (700, 3200)),
-        ("TestVFC17Refresh", (600, 2400)),
-        ("TestVFC17History", (120, 400), {"steps": 12}),
+        ("TestVFC17AddSetURL", (700, 2500)),
+        ("TestVFC17Refresh", (600, 1800)),
+        ("TestVFC17History", (120, 300), {"steps": 12}),
     ],
     "plain": ["TestVFC17Examples"],
     "shards": (2, 16),
